@@ -12,11 +12,23 @@
     heartBeat:   exec(OPTIONS); switch resp { SUPPORTED: ok | error: (nothing - "TODO") | default: closeWithError(plain error) }
     UseKeyspace / prepareStatement / registerEvents: exec; the answer (whatever its kind) goes back to THAT caller
     closeWithError(err): c.closed = true; every registered call is handed `callResp{err: err}`
+    exec, exits before anything was written (buildFrame failed / ctx done while waiting for the write slot, n == 0):
+                 close(call.timeout); if !c.closed { delete(c.calls, stream) }; c.releaseStream(call)
+    releaseStream(call): c.streams.Clear(call.streamID)          -- `release`  (the id is free from here on)
+                 call.streamObserverContext.StreamFinished(...)  -- user code runs here, for as long as it likes
+                                                                 -- `relDone`  (releaseStream returns)
+    addCall:     c.closed → ErrConnectionClosed; c.calls[stream] != nil → "attempting to use stream already in use"
+
+  Round 7 (schedule points inside exec's exits and releaseStream): `deliver` no longer frees the id itself - the
+  caller that was handed its response calls releaseStream afterwards (`release`, `relDone`), and between the two a new
+  request may be given the id. The early exits `buildFailed` / `writeCancelled` remove the registration FIRST and free
+  the id afterwards.
 
   The calls of the heartbeat, of USE / PREPARE / REGISTER and of user requests share the stream-id space and the
-  c.calls map. `Cfg` selects the code that exists (`Cfg.code`) or one of two variants that the theorems exclude and
+  c.calls map. `Cfg` selects the code that exists (`Cfg.code`) or one of three variants that the theorems exclude and
   the counterexamples exhibit (registration after the write; heartBeat treating an ERROR answer as fatal and
-  closing the connection WITH THAT FRAME as the error value).
+  closing the connection WITH THAT FRAME as the error value; releaseStream removing the c.calls entry of its id AFTER
+  it has freed the id and run the observer callback).
 -/
 namespace MuxOwn
 
@@ -42,12 +54,21 @@ inductive Outcome where
   | resp (f : Frame)
   | connErr (e : CErr)
   | ctxErr | timeout | writeErr
+  | buildErr                     -- buildFrame failed: nothing was written
+  | dupErr                       -- addCall: "attempting to use stream already in use"
 deriving DecidableEq, Repr
 
 inductive Pc where
   | idle
   | flight (s : Nat) (reg wr ret : Bool)   -- id reserved; in c.calls?; frame handed to the transport?; Write returned?
   | done (o : Outcome)
+deriving DecidableEq, Repr
+
+/-- where a call is inside releaseStream -/
+inductive Rel where
+  | no
+  | due        -- releaseStream will be / has been called, streams.Clear has not run yet
+  | cleared    -- streams.Clear has run (the id is free); the observer callback is running
 deriving DecidableEq, Repr
 
 inductive Wire where
@@ -59,6 +80,8 @@ deriving DecidableEq, Repr
 structure Cfg where
   lateRegister : Bool    -- true: addCall only after writeContext has returned (seeded change C01-5)
   hbErrFatal : Bool      -- true: heartBeat calls closeWithError(<the ERROR frame>) (seeded change C01-6)
+  lateDelete : Bool := false   -- true: releaseStream does delete(c.calls, id) after Clear and the callback, the early
+                               -- exits of exec do not delete themselves (seeded change C01-8)
 deriving DecidableEq, Repr
 
 /-- the code that exists -/
@@ -75,6 +98,7 @@ structure St where
   sent : Nat → Option Frame     -- ghost: what the peer answered to the request of call c
   lost : Nat → Bool             -- ghost: the answer to call c was discarded for want of a handler
   reacted : Nat → Bool          -- heartBeat has looked at the answer of its call c
+  rel : Nat → Rel               -- call c inside releaseStream
   closed : Option CErr          -- closeWithError(e) has run
 
 inductive Act where
@@ -93,6 +117,10 @@ inductive Act where
   | close                        -- closeWithError(err) with an error that is no frame (recv / write failure, Close)
   | connDone (c : Nat)           -- closeWithError hands its argument to the registered call c
   | connDoneCtx (c : Nat)        -- call c sees c.ctx.Done(): ErrConnectionClosed
+  | buildFailed (c : Nat)        -- exec: buildFrame returned an error (registered, nothing written)
+  | writeCancelled (c : Nat)     -- exec: writeContext returned (0, ctx.Err()): ctx done before the write started
+  | release (c : Nat)            -- releaseStream: streams.Clear(id)
+  | relDone (c : Nat)            -- releaseStream returns (after the StreamFinished callback)
 deriving Repr
 
 def upd {α} (f : Nat → α) (k : Nat) (v : α) : Nat → α := fun x => if x = k then v else f x
@@ -100,13 +128,20 @@ def upd {α} (f : Nat → α) (k : Nat) (v : α) : Nat → α := fun x => if x =
 def init (cap : Nat) : St :=
   { cap := cap, owner := fun _ => none, reg := fun _ => none, wire := fun _ => .none, pc := fun _ => .idle,
     who := fun _ => .user, sidOf := fun _ => 0, sent := fun _ => none, lost := fun _ => false,
-    reacted := fun _ => false, closed := none }
+    reacted := fun _ => false, rel := fun _ => .no, closed := none }
 
 /-- closeWithError(e): only the first one counts -/
 def closeWith (st : St) (e : CErr) : Option CErr :=
   match st.closed with
   | some x => some x
   | none => some e
+
+/-- the exits of exec before anything was written: the registration is removed first (unless the connection is
+    closing: closeWithError owns the map then), the id is freed afterwards -/
+def earlyExit (cfg : Cfg) (st : St) (c s : Nat) (o : Outcome) : St :=
+  { st with pc := upd st.pc c (.done o),
+            reg := if st.closed = none ∧ cfg.lateDelete = false then upd st.reg s none else st.reg,
+            rel := upd st.rel c .due }
 
 def step (cfg : Cfg) (st : St) : Act → Option St
   | .reserve c s w =>
@@ -118,7 +153,9 @@ def step (cfg : Cfg) (st : St) : Act → Option St
       match st.pc c with
       | .flight s false wr ret =>
           if (if cfg.lateRegister then ret = true else wr = false) then
-            (if st.closed = none then some { st with reg := upd st.reg s (some c), pc := upd st.pc c (.flight s true wr ret) }
+            (if st.closed = none then
+               (if st.reg s = none then some { st with reg := upd st.reg s (some c), pc := upd st.pc c (.flight s true wr ret) }
+                else some { st with pc := upd st.pc c (.done .dupErr) })            -- addCall: stream already in use
              else some { st with pc := upd st.pc c (.done (.connErr .plain)) })   -- addCall: ErrConnectionClosed
           else none
       | _ => none
@@ -151,9 +188,9 @@ def step (cfg : Cfg) (st : St) : Act → Option St
           | some d =>
               match st.pc d with
               | .flight _ _ _ false => none     -- the registered caller is still inside Write: recv waits in its select
-              | .flight _ _ _ true =>
-                  some { st with wire := upd st.wire s .none, reg := upd st.reg s none, owner := upd st.owner s none,
-                                 pc := upd st.pc d (.done (.resp f)) }
+              | .flight _ _ _ true =>                -- handed over; the CALLER will call releaseStream
+                  some { st with wire := upd st.wire s .none, reg := upd st.reg s none,
+                                 pc := upd st.pc d (.done (.resp f)), rel := upd st.rel d .due }
               | .done _ =>                        -- the caller gave up (its timeout channel is closed): id released
                   some { st with wire := upd st.wire s .none, reg := upd st.reg s none, owner := upd st.owner s none }
               | .idle => none
@@ -186,11 +223,46 @@ def step (cfg : Cfg) (st : St) : Act → Option St
       match st.pc c, st.closed with
       | .flight _ true true true, some _ => some { st with pc := upd st.pc c (.done (.connErr .plain)) }
       | _, _ => none
+  | .buildFailed c =>
+      match st.pc c with
+      | .flight s true false false => some (earlyExit cfg st c s .buildErr)
+      | _ => none
+  | .writeCancelled c =>
+      match st.pc c with
+      | .flight s true false false => some (earlyExit cfg st c s .ctxErr)
+      | _ => none
+  | .release c =>
+      if st.rel c = .due then some { st with owner := upd st.owner (st.sidOf c) none, rel := upd st.rel c .cleared }
+      else none
+  | .relDone c =>
+      if st.rel c = .cleared then
+        some { st with rel := upd st.rel c .no,
+                       reg := if cfg.lateDelete = true ∧ st.closed = none then upd st.reg (st.sidOf c) none else st.reg }
+      else none
 
 def run (cfg : Cfg) : St → List Act → Option St
   | s, [] => some s
   | s, a :: as => match step cfg s a with
     | some s' => run cfg s' as
     | none => none
+
+/-! Several connections of one process: each has its own stream ids, its own `c.calls`, its own call objects (exec
+    allocates a fresh `callReq` - response channel and timeout channel - per request): a step of connection `k` is a
+    step of the machine of `k` and leaves every other connection alone. -/
+def mstep (cfg : Cfg) (m : Nat → St) (k : Nat) (a : Act) : Option (Nat → St) :=
+  match step cfg (m k) a with
+  | some s => some (upd m k s)
+  | none => none
+
+def mrun (cfg : Cfg) : (Nat → St) → List (Nat × Act) → Option (Nat → St)
+  | m, [] => some m
+  | m, (k, a) :: as => match mstep cfg m k a with
+    | some m' => mrun cfg m' as
+    | none => none
+
+/-- the actions of connection `k` in an interleaved history -/
+def proj (k : Nat) : List (Nat × Act) → List Act
+  | [] => []
+  | (j, a) :: as => if j = k then a :: proj k as else proj k as
 
 end MuxOwn
